@@ -70,3 +70,67 @@ SPECS["C09"] = {
     "level_note": "trusts glibc strtod as the correctly rounded reference and the in-harness exact midpoint expansion (bigdec.hpp)",
     "assumptions": ["glibc strtod is correctly rounded", "numerals whose correctly rounded value is 0 with a non-zero mantissa (below the smallest subnormal) are outside the quantifier and discarded"],
 }
+
+
+# ---------------------------------------------------------------------------------------------- C10
+def plan_c10(tier, seed):
+    if tier == "quick":
+        return checks("main", 8, 40000)
+    runs = checks("main", 10, 500000) + checks("nohook", 2, 300000)
+    # every float bit pattern at three (precision, format) pairs, plain -O2 build, 16 shards each
+    for what in ("floats-9-0", "floats-6-1", "floats-2-2"):
+        runs += shards("plain", what, 16, timeout=7000)
+    return runs
+
+
+SPECS["C10"] = {
+    "builds": {
+        "main": Build("main", "harness/c10_numtostr.cpp"),
+        "nohook": Build("nohook", "harness/c10_numtostr.cpp", hook=False, simd="avx2"),
+        "plain": Build("plain", "harness/c10_numtostr.cpp", san="plain", hook=False),
+    },
+    "default_build": "main",
+    "plan": plan_c10,
+    "exhaustive_enums": ["floats-9-0", "floats-6-1", "floats-2-2"],
+    "rule": ("case = (value, precision 0..40, format Default/Fixed/SemiFixed, unit width, stream prefix); values: doubles from 14 classes (uniform bits, "
+             "modest binades, short decimals m*10^e, everyday decimals, exact binary ties, integers, power-of-ten / power-of-two neighbourhoods, "
+             "subnormals, sparse mantissas, specials, nine-runs), floats (uniform, short decimals, ties, specials), integers of 8/16/32/64 bits "
+             "incl. minima; thorough adds every one of the 2^32 floats at 3 (precision, format) pairs; non-trivial = finite non-integer value, or "
+             "integer value with more digits than the precision, or an integer type; distinct by full case text"),
+    "engine": "rapidcheck + complete enumeration of floats",
+    "technique": "property-based testing (rapidcheck) with a differential oracle: glibc snprintf %.*g / %.*f (exact) and std::to_string; exhaustive float sweep",
+    "level_text": ("Digit::NumberToString output is compared byte for byte with snprintf (Default=%.{p}g, Fixed=%.{p}f, SemiFixed=%.{p}f minus trailing "
+                   "fractional zeros) for generated doubles/floats at precision 0..40, with exact integer text for all integer widths, inf/nan spelling, and "
+                   "an untouched stream prefix; exact-fit stream growth + ASan makes any write past the stream block a failure. Thorough enumerates all "
+                   "2^32 floats at three (precision, format) pairs. Sampling for doubles (2^64 x 41 x 3 is out of reach)."),
+    "level_note": "trusts glibc printf as the exact reference; the exhaustive float sweep runs in a plain -O2 build (no sanitizer)",
+    "assumptions": ["glibc snprintf prints correctly rounded digits of the exact binary value"],
+}
+
+
+# ---------------------------------------------------------------------------------------------- C11
+def plan_c11(tier, seed):
+    if tier == "quick":
+        return checks("main", 8, 40000)
+    return checks("main", 8, 500000) + shards("plain", "floats", 16, timeout=7000) + shards("plain", "doubles-lattice", 16, timeout=7000)
+
+
+SPECS["C11"] = {
+    "builds": {
+        "main": Build("main", "harness/c11_roundtrip.cpp"),
+        "plain": Build("plain", "harness/c11_roundtrip.cpp", san="plain", hook=False),
+    },
+    "default_build": "main",
+    "plan": plan_c11,
+    "exhaustive_enums": ["floats"],
+    "rule": ("case = finite double (same 14 generator classes as C10: uniform bits, binades, short decimals, ties, powers of 2/10 +-2 ulp, subnormals, "
+             "sparse mantissas, extremes, +-0) formatted with 17 significant digits and parsed back, 1 or 3 cycles, 3 unit widths; or a float with 9 digits; "
+             "thorough adds all finite floats (exhaustive) and a 60M-point lattice over the double bit patterns; non-trivial = value is not an integer "
+             "below 2^53; distinct by bit pattern, width and cycles"),
+    "engine": "rapidcheck + complete enumeration of floats",
+    "technique": "property-based testing (rapidcheck) with a round-trip oracle (bit identity after format(17)/parse); exhaustive float sweep",
+    "level_text": ("Bit identity of StringToNumber(NumberToString(d,17)) for generated finite doubles (and 9 digits for floats); thorough enumerates "
+                   "every finite float and a regular lattice of doubles. Sampling for doubles."),
+    "level_note": "no external reference needed (round trip); plain -O2 build for the sweeps",
+    "assumptions": [],
+}
